@@ -33,6 +33,14 @@ def parse_msg(err):
     return groups
 
 
+ANSI = re.compile(r"\x1b\[[0-9;?]*[A-Za-z]")
+
+
+def clean(err):
+    """stderr without ANSI escape sequences and without mage's DEBUG lines"""
+    return "\n".join(l for l in ANSI.sub("", err).splitlines() if not l.startswith("DEBUG: "))
+
+
 def bare(i):
     return i.rsplit(".", 1)[-1]
 
@@ -56,7 +64,7 @@ def observe_state(mage, d, spec):
     history also `mage -h <target>`, `mage <name>` when rejected, and `mage -compile`"""
     flags, env = c07gen.MODES[spec.get("mode", "plain")]
     r = mage.run(d, flags + ["-l"], env=env)
-    err = "\n".join(l for l in r["err"].splitlines() if not l.startswith("DEBUG: "))
+    err = clean(r["err"])
     o = {"rc": r["rc"], "class": projlib.stderr_class(err), "groups": parse_msg(err), "stderr": err[-1500:], "runs": [], "mode": spec.get("mode", "plain")}
     cmds = spec.get("cmds", [])
     if r["rc"] == 0 and spec["words"]:
@@ -69,10 +77,10 @@ def observe_state(mage, d, spec):
     tnames = [c07gen.runnable(defs[i], a) for i, a in c07gen.exposures(spec)]
     if "h" in cmds and tnames:
         rh = mage.run(d, flags + ["-h", tnames[0].lower()], env=env)
-        o["help"] = {"word": tnames[0].lower(), "rc": rh["rc"], "class": projlib.stderr_class(rh["err"]), "stderr": rh["err"][-400:]}
+        o["help"] = {"word": tnames[0].lower(), "rc": rh["rc"], "class": projlib.stderr_class(clean(rh["err"])), "stderr": clean(rh["err"])[-400:]}
     if "run" in cmds and r["rc"] != 0 and spec["words"]:
         rr = mage.run(d, flags + spec["words"][:1], env=env)
-        o["run1"] = {"word": spec["words"][0], "rc": rr["rc"], "class": projlib.stderr_class(rr["err"]), "calls": [c[0] for c in projlib.calls(rr["out"])], "stderr": rr["err"][-400:]}
+        o["run1"] = {"word": spec["words"][0], "rc": rr["rc"], "class": projlib.stderr_class(clean(rr["err"])), "calls": [c[0] for c in projlib.calls(rr["out"])], "stderr": rr["err"][-400:]}
     if "compiled" in cmds:
         exe = os.path.join(d, "compiled_magefile")
         if os.path.exists(exe):
@@ -213,6 +221,21 @@ def oracle(spec, o):
         bad = group_ok(g)
         if bad:
             return bad
+    # ... and names ALL of them that the failing stage sees: every name defined by two or more targets in the
+    # "multiple definitions" message; every clashing name of the package in the per-package message
+    if any(g["kind"] == "multi" for g in o["groups"]):
+        want = sorted(n for n, l in by.items() if sum(1 for w in l if w[0] == "def") > 1)
+        got = sorted(g["key"] for g in o["groups"] if g["kind"] == "multi")
+        if got != want:
+            return "the message names the definitions of %s; names with several definitions are %s" % (got, want)
+    if any(g["kind"] == "case" for g in o["groups"]):
+        pkgs = {}
+        for i, d in defs.items():
+            pkgs.setdefault(d["pkg"], {}).setdefault(((d["recv"] + ":") if d["recv"] else "").lower() + d["name"].lower(), []).append(d["name"])
+        listed = sorted(sorted(g["ids"]) for g in o["groups"] if g["kind"] == "case")
+        clash = {p: sorted(sorted(ns) for ns in ks.values() if len(ns) > 1) for p, ks in pkgs.items()}
+        if not any(c == listed for c in clash.values() if c):
+            return "the message lists the conflicts %s; the packages' conflicts are %s" % (listed, [c for c in clash.values() if c])
     if not any(g["kind"] != "multi" or g["key"] in dup for g in o["groups"]):
         return "rejected, but no group of the message is one of the real collisions %s: %s" % (sorted(dup), o["groups"])
     return None
